@@ -52,7 +52,10 @@ func verifC04Flow(flow int) {
 		nopts = append(nopts, nodeenrollment.WithStorageWrapper(vfC04Wrapper("node-storage", 6)))
 	}
 	withState := vf.Bool("application-state")
-	roots, err := rotation.RotateRootCertificates(ctx, st, sopts...)
+	// the roots may have been minted under another certificate lifetime than the one in force when the node is
+	// authorized: a leaf never outlives its own issuing root
+	rootLife := vf.Dur("root-certificate-lifetime", int64(2*time.Hour), int64(30*24*time.Hour))
+	roots, err := rotation.RotateRootCertificates(ctx, st, append(append([]nodeenrollment.Option{}, sopts...), nodeenrollment.WithCertificateLifetime(rootLife))...)
 	vfOK("rotate-roots", err)
 
 	var creds *types.NodeCredentials
@@ -207,9 +210,11 @@ func VerifC04NodeRefuses() {
 	if err != nil {
 		panic(err)
 	}
-	resp := &types.FetchNodeCredentialsResponse{EncryptedNodeCredentials: enc, ServerEncryptionPublicKeyBytes: vf.X25519Pub(9), ServerEncryptionPublicKeyType: types.KEYTYPE_X25519}
+	// the server key named in the clear on the response: the one the payload was encrypted with, or a substitute
+	outerKey := vf.Int("response-names-server-key", 8, 9)
+	resp := &types.FetchNodeCredentialsResponse{EncryptedNodeCredentials: enc, ServerEncryptionPublicKeyBytes: vf.X25519Pub(outerKey), ServerEncryptionPublicKeyType: types.KEYTYPE_X25519}
 	out, err := node.HandleFetchNodeCredentialsResponse(ctx, nodeSt, resp)
-	legit := vf.And(vf.And(serverView == 0, certView == 2), vf.EqBytes(echoed, nonce))
+	legit := vf.And(vf.And(vf.And(serverView == 0, certView == 2), outerKey == 9), vf.EqBytes(echoed, nonce))
 	if err == nil {
 		vf.Reach("accepted")
 		vf.Assert("accepted-only-if-for-this-key-and-nonce", legit)
@@ -219,6 +224,18 @@ func VerifC04NodeRefuses() {
 		vf.Reach("refused")
 		vf.Assert("own-response-is-accepted", vf.Not(legit))
 		vf.Assert("refused-response-stores-nothing", nodeSt.Count(vfs.KindCreds) == 0)
+		// a refused response leaves nothing behind in the credentials value: the genuine response, handled next by
+		// the same value, completes the enrollment
+		good, gerr := nodeenrollment.EncryptMessage(ctx, &types.NodeCredentials{ServerEncryptionPublicKeyBytes: vf.X25519Pub(9), ServerEncryptionPublicKeyType: types.KEYTYPE_X25519,
+			RegistrationNonce: nonce, CertificateBundles: inner.CertificateBundles},
+			&types.NodeInformation{CertificatePublicKeyPkix: vf.Pkix(2), EncryptionPublicKeyBytes: vf.X25519Pub(0), EncryptionPublicKeyType: types.KEYTYPE_X25519,
+				ServerEncryptionPrivateKeyBytes: vf.X25519Priv(9), ServerEncryptionPrivateKeyType: types.KEYTYPE_X25519})
+		if gerr != nil {
+			panic(gerr)
+		}
+		_, herr := node.HandleFetchNodeCredentialsResponse(ctx, nodeSt, &types.FetchNodeCredentialsResponse{EncryptedNodeCredentials: good,
+			ServerEncryptionPublicKeyBytes: vf.X25519Pub(9), ServerEncryptionPublicKeyType: types.KEYTYPE_X25519})
+		vf.Assert("genuine-response-accepted-after-a-refused-one", herr == nil)
 	}
 }
 
